@@ -61,3 +61,30 @@ def signature_family():
                 if w is not None:
                     out.append((w, f'{token}({k})'))
     return out
+
+
+def sibling_family():
+    """sibling (not nested) quantifiers that reuse one variable name over domains of every kind and element type - own and aliased
+    arrays, set literals, ranges - each body narrowing its variable to the element type: two unrelated variables of one name never
+    constrain each other (C04), whatever the kinds of the two domains"""
+    from gen import TRUE
+    V = ('var', 'v')
+    T = lambda *p: ('field', ('this',), p[0]) if len(p) == 1 else ('field', T(*p[:-1]), p[-1])
+    A = lambda n: ('field', ('var', 'A'), n)
+    num_body = [('bin', '>', V, int_lit(0)), ('bin', '=', ('bin', '+', V, int_lit(1)), X)]
+    bool_body = [V, ('bin', 'implies', V, ('field', ('this',), 'b'))]
+    str_body = [('bin', '=', V, str_lit('a'))]
+    doms = [('num', T('xs'), num_body), ('num', A('ys'), num_body), ('num', T('m', 'xs'), num_body), ('bool', T('bs'), bool_body), ('bool', A('bs'), bool_body),
+            ('str', T('ss'), str_body), ('str', A('ss'), str_body), ('num', ('set', [X, int_lit(1)]), num_body),
+            ('str', ('set', [('field', ('this',), 's'), str_lit('b')]), str_body), ('bool', ('set', [('field', ('this',), 'b'), TRUE]), bool_body),
+            ('num', ('range', int_lit(0), X, False, False), num_body)]
+    out = []
+    for i, (k1, d1, b1) in enumerate(doms):
+        for j, (k2, d2, b2) in enumerate(doms):
+            if i == j:
+                continue
+            q1 = ('quant', 'all' if (i + j) % 2 else 'some', 'v', d1, b1[(i + j) % len(b1)])
+            q2 = ('quant', 'some' if j % 2 else 'all', 'v', d2, b2[i % len(b2)])
+            conn = ('and', 'or', 'implies')[(i + 2 * j) % 3]
+            out.append((('bin', conn, q1, q2), f'siblings({k1}:{d1[0]},{k2}:{d2[0]})'))
+    return out
